@@ -79,11 +79,11 @@ def make_model():
                     sigma=af.UniformPrior(-5.0, 5.0))
 
 
-def make_search(case):
+def make_search(case, session=None):
     if case["search"] == "drawer":
-        return af.Drawer(name="fit", total_draws=4)
+        return af.Drawer(name="fit", total_draws=4, session=session)
     if case["search"] == "lbfgs":
-        return af.LBFGS(name="fit", iterations_per_update=1, maxiter=int(case["updates"]))
+        return af.LBFGS(name="fit", iterations_per_update=1, maxiter=int(case["updates"]), session=session)
     raise ValueError(case["search"])
 
 
@@ -268,7 +268,8 @@ def child(case, outdir, run_index, crash, report_path):
         np.random.seed(12345 + 7919 * run_index + case.get("salt", 0))
         random.seed(999 + run_index + case.get("salt", 0))
         analysis = Analysis(run_index)
-        search = make_search(case)
+        session = af.db.open_database(os.path.join(outdir, "db.sqlite")) if case.get("db") else None
+        search = make_search(case, session)
         model = make_model()
         hook = Hook(outdir, crash, report_path)
         hook.extra = {"identifier": None}
